@@ -761,6 +761,26 @@ class Evaluator:
             return x[1]
         if tag(x) == "variant" and x[2] == vn and isinstance(i, int) and i < len(x[3]):
             return x[3][i]
+        if tag(x) == "phi" and len(x) > 3 and isinstance(i, int) and len(x[3]) <= 4:
+            # a join of Option / Result values, asked for the payload of one variant: the alternatives that are literally another variant cannot be meant;
+            # when one candidate is left, it is the payload
+            cands = []
+            for a_ in x[3]:
+                if tag(a_) == "variant":
+                    if a_[2] == vn and i < len(a_[3]):
+                        cands.append(a_[3][i])
+                    continue
+                if tag(a_) in ("call", "filter", "vsum", "nonzero", "tryfrom"):
+                    p_ = self._payload(a_, vn, i)
+                    if tag(p_) == "payload" and p_[1] == a_:
+                        cands = None
+                        break
+                    cands.append(p_)
+                    continue
+                cands = None
+                break
+            if cands is not None and len(cands) == 1:
+                return cands[0]
         if tag(x) == "vsum" and isinstance(i, int):
             # a value known variant by variant (the result of a combinator): the payload of the variant asked for
             for n_, p_ in x[2]:
@@ -1484,6 +1504,14 @@ class Evaluator:
         if re.search(r"(cmp::Ord::clamp|num::<impl \w+>::clamp|cmp::Ord for \w+>::clamp)$", c) and len(args) == 3 and all(_numeric(a) for a in args):
             # x.clamp(lo, hi) = min(hi, max(lo, x)) (it asserts lo <= hi: data_offset <= cap is an arena invariant, C16-L3)
             return _minmax("min", args[2], _minmax("max", args[1], args[0]))
+        if re.search(r"ops::(range::)?RangeInclusive::<.*>::new$", c) and len(args) == 2:
+            return ("struct", "std::ops::RangeInclusive", (("start", args[0]), ("end", args[1])))
+        if re.search(r"ops::(range::)?Range(Inclusive)?::<.*>::contains(::<.*>)?$", c) and len(args) == 2:
+            # (a..b).contains(&x) = a <= x && x < b ; (a..=b).contains(&x) = a <= x && x <= b
+            rng, item = self._deref_val(args[0]), self._deref_val(args[1])
+            if tag(rng) == "struct" and struct_get(rng, "start") is not None and struct_get(rng, "end") is not None and _numeric(item):
+                incl = "RangeInclusive" in c or str(rng[1]).endswith("RangeInclusive")
+                return ("booland", ("cmp", "Ge", item, struct_get(rng, "start")), ("cmp", "Le" if incl else "Lt", item, struct_get(rng, "end")))
         if re.search(r"num::<impl u\w+>::abs_diff$", c) and len(args) == 2:
             # a.abs_diff(b) = a - b when a >= b, b - a otherwise
             return ("ite", as_lin(sub(args[0], args[1])), sub(args[0], args[1]), sub(args[1], args[0]))
@@ -1518,16 +1546,27 @@ class Evaluator:
                 if len(outv) == 1:
                     (n, p), = outv.items()
                     return ("variant", "std::ops::ControlFlow", n, p)
+                if len(x) > 3 and x[3][0] == "and":
+                    gd_ = {"Some": 1, "Ok": 0}.get(good)
+                    return ("vsum", "std::ops::ControlFlow", tuple(sorted(outv.items())), ("maps", x, (("Break", 1 - gd_), ("Continue", gd_))))
+                if len(x) > 3 and x[3][0] == "maps":
+                    # the operand's variant is decided by another value's (`opt.ok_or_else(..)?`): `?` keeps the correspondence
+                    mp = dict(x[3][2])
+                    return ("vsum", "std::ops::ControlFlow", tuple(sorted(outv.items())),
+                            ("maps", x[3][1], tuple(sorted([("Continue", mp.get(good))] + [("Break", mp.get(b_)) for b_ in bad[:1]]))))
                 if len(x) > 3 and x[3][0] == "from":
                     # the operand was joined from variant constructions: `?` keeps the correspondence (Ok / Some -> Continue, the other -> Break)
                     frm = tuple(sorted(set(("Continue" if nm == good else "Break", o) for nm, o in x[3][2]), key=repr))
                     return ("vsum", "std::ops::ControlFlow", tuple(sorted(outv.items())), ("from", x[3][1], frm))
                 return ("vsum", "std::ops::ControlFlow", tuple(sorted(outv.items())))
             # opaque operand: split it by the kind of the Try type so that `?` on it still yields a proper None / Err value
+            # (the correspondence with the operand's own variant is kept: a test of the ControlFlow value is a test of the operand)
             if "option::Option" in c:
-                return ("vsum", "std::ops::ControlFlow", (("Break", (("variant", "std::option::Option", "None", ()),)), ("Continue", (self._payload(x, "Some", 0),))))
+                return ("vsum", "std::ops::ControlFlow", (("Break", (("variant", "std::option::Option", "None", ()),)), ("Continue", (self._payload(x, "Some", 0),))),
+                        ("maps", x, (("Break", 0), ("Continue", 1))))
             if "result::Result" in c:
-                return ("vsum", "std::ops::ControlFlow", (("Break", (("variant", "std::result::Result", "Err", (self._payload(x, "Err", 0),)),)), ("Continue", (self._payload(x, "Ok", 0),))))
+                return ("vsum", "std::ops::ControlFlow", (("Break", (("variant", "std::result::Result", "Err", (self._payload(x, "Err", 0),)),)), ("Continue", (self._payload(x, "Ok", 0),))),
+                        ("maps", x, (("Break", 1), ("Continue", 0))))
             return ("call", "Try::branch", (x,))
         if re.search(r"FromResidual(<.*>)?>?::from_residual$", c) or c.endswith("::from_residual"):
             x = args[0]
@@ -1855,6 +1894,7 @@ class Evaluator:
             variants = {good: (self._payload(recv, good, 0),), bad: ((self._payload(recv, bad, 0),) if kind == "Result" else ())}
         tgt = good if on_good else bad
         outv = {}
+        and_of = None
         for vn, payload in variants.items():
             if vn != tgt:
                 outv[vn] = payload
@@ -1891,8 +1931,23 @@ class Evaluator:
                 else:
                     outv[good] = (self._payload(r, good, 0),)
                     outv.setdefault(bad, (self._payload(r, bad, 0),) if kind == "Result" else ())
+                    if op == "and_then":
+                        and_of = (recv, r)
             else:
                 outv[vn] = (r,)
+        if op == "ok_or_else" and kind == "Option":
+            # opt.ok_or_else(f): Some(v) -> Ok(v), None -> Err(f()); the result's variant is decided by the receiver's
+            res_ = {}
+            if "Some" in outv:
+                res_["Ok"] = outv["Some"]
+            if "None" in outv:
+                res_["Err"] = outv["None"]
+            if len(res_) == 1:
+                (n, p), = res_.items()
+                return ("variant", "std::result::Result", n, p)
+            if tag(recv) not in ("variant", "vsum"):
+                return ("vsum", "std::result::Result", tuple(sorted(res_.items())), ("maps", recv, (("Err", 0), ("Ok", 1))))
+            return ("vsum", "std::result::Result", tuple(sorted(res_.items())))
         if op == "unwrap_or_else":
             # the value itself, not an Option / Result: the good payload, or what the closure made of the other variant
             dflt = outv.get(bad, (None,))[0] if bad in outv else None
@@ -1912,6 +1967,9 @@ class Evaluator:
         if op in ("map", "map_err", "inspect", "inspect_err") and tag(recv) not in ("variant", "vsum"):
             # the result has the receiver's variant, case by case: remember the receiver, so that `return r.map(f)` can be read as one return per variant
             return ("vsum", adt, tuple(sorted(outv.items())), ("by", recv))
+        if and_of is not None and tag(recv) not in ("variant", "vsum"):
+            # opt.and_then(f) with neither side known: the result is Some / Ok exactly when the receiver is and f's result is
+            return ("vsum", adt, tuple(sorted(outv.items())), ("and", and_of[0], and_of[1], good))
         return ("vsum", adt, tuple(sorted(outv.items())))
 
     def _inline(self, frame, bi, cb, args, entry, guard=None):
@@ -2301,6 +2359,26 @@ def implied_facts(guards):
                           frozenset(["Lt", "Gt"]): "Ne"}.get(frozenset(left))
                 if op is not None:
                     facts |= implied_facts([(("cmp", op, a_, b_), ("eq", 1))])
+            if tag(x) == "vsum" and len(x) > 3 and x[3][0] == "and":
+                # a.and_then(f) is Some / Ok: a is, and what f returned is
+                gname = x[3][3]
+                gd = {"Some": 1, "Ok": 0}.get(gname)
+                is_good = (rel == ("eq", gd)) or (rel == ("ne", (1 - gd,))) if gd is not None else False
+                if is_good:
+                    facts |= implied_facts([(("discr", x[3][1]), ("eq", gd)), (("discr", x[3][2]), ("eq", gd))])
+            if tag(x) == "vsum" and len(x) > 3 and x[3][0] == "maps":
+                # a value whose variant is decided by another value's: the test is one of that value
+                names = {"std::result::Result": ("Ok", "Err"), "std::ops::ControlFlow": ("Continue", "Break"), "std::option::Option": ("None", "Some")}.get(x[1])
+                mp = dict(x[3][2])
+                which = None
+                if names is not None:
+                    if rel in (("eq", 0), ("ne", (1,))):
+                        which = names[0]
+                    elif rel in (("eq", 1), ("ne", (0,))):
+                        which = names[1]
+                if which is not None and mp.get(which) is not None:
+                    facts.discard(("discr", cond[1], rel))
+                    facts |= implied_facts([(("discr", x[3][1]), ("eq", mp[which]))])
             if tag(x) == "vsum" and len(x) == 3 and str(x[1]).endswith("ControlFlow"):
                 # `opaque()?`: Try::branch of a value nothing is known about - Continue <=> Ok / Some, Break <=> Err / None: the test is one of the value itself
                 d_ = dict(x[2])
